@@ -58,6 +58,9 @@ def gen(rng, tier, run):
         pfail = rng.choice([0.0, 0.0, 0.3, 1.0])
         case['dss'] = [[v + (rng.choice([1.0, -3.0, 50.0]) if rng.random() < pfail else rng.choice([0.0, 0.0, 1e-12]))
                         for v in case['ref']] for _ in range(nds)]
+        if rng.random() < 0.3:            # an undefined bin on one side (NaN), or an infinite one
+            tgt = rng.choice([case['ref']] + case['dss'])
+            tgt[rng.randrange(size)] = rng.choice([float('nan'), float('nan'), float('inf')])
         case['err'] = [rng.choice([0.1, 0.5, 1.0]) for _ in range(size)]
         case['alpha'] = rng.choice([0.01, 0.05, 0.2])
     case['ops'] = [{'op': rng.choice(OPS), 'verb': rng.randrange(0, 6), 'key': rng.randrange(0, 6),
